@@ -93,8 +93,12 @@ def implicit_raises(prog, rep):
     q = prog.func("query", "aw_query.query2")
     res = it.call(q, [TOP, F("STR", "NOTNONE"), TOP, TOP, TOP])
     for key, s in sorted(it.safe.items()):
+        if key[2] == "Spacing":
+            continue
         rep.ok("IMPLICIT-RAISE", s.fi.short, f"{key[1]} ({key[2]})", f"state has {sorted(s.have & (s.need | {'RS', 'DEC', 'NE'}))}; needs {sorted(s.need)}", s.fi.loc(s.node))
     for key, s in sorted(it.unsafe.items()):
+        if key[2] == "Spacing":
+            continue
         missing = sorted(s.need - s.have)
         hint = {
             "IndexError": "the string can be empty here (e.g. blank text between separators, or text that strip() empties after the emptiness test)",
